@@ -1,4 +1,167 @@
-import CentrifugeVerif.Model.RecoveryHub
+import CentrifugeVerif.Proofs.Recovery
+/-!
+# C02 — stream recovery is exact or explicitly refused
+
+Property theorems over `Model/Recovery.lean` (`streamSubscribe` = the stream-mode recovery branch of
+`subscribeCmd` over `Node.recoverHistory` / `historyHub.getLocked` / `memstream.Stream.Get` /
+`isStreamRecovered` / `MergePublications`).  They hold for **every** stream state satisfying
+`RStream.Inv` (retained list = contiguous suffix of the epoch's publish log ending at `top`,
+`top + 1 < 2^64`; proved inductive for the hub mini-model in `Proofs/RecoveryHub.lean`), every
+request offset below `2^64` (so also `MaxUint64`, where `offset + 1` wraps), every request epoch
+(`0` = empty string), every `RecoveryMaxPublicationLimit` (`0` = unlimited), every filter predicate
+and both values of the reject flag.  Publications buffered concurrently with the subscribe are
+empty here (their merge is C39; `recovered_false_empty` holds for any buffer).
+-/
 namespace CentrifugeVerif.Recovery
-theorem c02_placeholder : True := trivial
+open CentrifugeVerif.Merge
+
+/-- the epoch of the request is acceptable: empty, or the stream's epoch -/
+def epochOK (s : RStream) (ep : Nat) : Prop := ep = 0 ∨ ep = s.epoch
+
+/-- the publications of the epoch after `off` that the filters let through, oldest first: what the
+property calls "the channel's publications after that offset up to the current top (minus those the
+subscription's filters withhold)" -/
+def expectedPubs (s : RStream) (off : Nat) (pass : Pub → Bool) : List MPub :=
+  ((s.log.filter (fun p => decide (off < p.offset))).filter pass).map toPlain
+
+/-- **recovered_true_iff.**  `recovered = true` is reported exactly when the epoch is acceptable,
+the requested offset is not beyond the top, every offset in `(offset, top]` is still retained, and
+the recovery publication limit did not truncate the answer. -/
+theorem recovered_true_iff (limit : Nat) (s : RStream) (hi : s.Inv) (req : Req) (hoff : req.offset < U64)
+    (pass : Pub → Bool) :
+    (streamSubscribe limit s req pass []).recovered = true ↔
+      epochOK s req.epoch ∧ req.offset ≤ s.top ∧ gapRetained s req.offset ∧ ¬ truncated limit s req.offset := by
+  rw [streamSubscribe_spec limit s hi req hoff pass]
+  constructor
+  · intro h
+    by_cases hc : streamCond limit s req
+    · exact ⟨hc.1, hc.2.1, (gap_iff s hi _ hc.2.1).mpr hc.2.2.1, hc.2.2.2⟩
+    · rw [if_neg hc] at h
+      cases hr : req.reject <;> simp [hr, Outcome.recovered] at h
+  · rintro ⟨h1, h2, h3, h4⟩
+    have hc : streamCond limit s req := ⟨h1, h2, (gap_iff s hi _ h2).mp h3, h4⟩
+    rw [if_pos hc]
+    rfl
+
+/-- In particular `recovered = true` is never reported when a publication after the requested offset
+is missing from history, when the epoch differs, or when the limit truncated the result. -/
+theorem recovered_never_when (limit : Nat) (s : RStream) (hi : s.Inv) (req : Req) (hoff : req.offset < U64)
+    (pass : Pub → Bool)
+    (h : (∃ o, req.offset < o ∧ o ≤ s.top ∧ ∀ p ∈ s.items, p.offset ≠ o) ∨
+         (req.epoch ≠ 0 ∧ req.epoch ≠ s.epoch) ∨ truncated limit s req.offset) :
+    (streamSubscribe limit s req pass []).recovered = false := by
+  cases hr : (streamSubscribe limit s req pass []).recovered with
+  | false => rfl
+  | true =>
+    obtain ⟨h1, _, h3, h4⟩ := (recovered_true_iff limit s hi req hoff pass).mp hr
+    rcases h with ⟨o, ho1, ho2, ho3⟩ | ⟨he1, he2⟩ | ht
+    · obtain ⟨p, hp, hpo⟩ := h3 o ho1 ho2
+      exact absurd hpo (ho3 p hp)
+    · rcases h1 with h1 | h1
+      · exact absurd h1 he1
+      · exact absurd h1 he2
+    · exact absurd ht h4
+
+/-- **recovered_pubs_exact.**  When `recovered = true` the reply carries exactly the publications of
+the epoch after the requested offset, in order, minus the filtered ones; the reply offset is the
+requested one, the epoch the stream's, and the position the client is put at is the stream top. -/
+theorem recovered_pubs_exact (limit : Nat) (s : RStream) (hi : s.Inv) (req : Req) (hoff : req.offset < U64)
+    (pass : Pub → Bool) (h : (streamSubscribe limit s req pass []).recovered = true) :
+    streamSubscribe limit s req pass [] =
+      .reply true (expectedPubs s req.offset pass) req.offset s.epoch s.top true := by
+  have hiff := (recovered_true_iff limit s hi req hoff pass).mp h
+  have hc : streamCond limit s req := ⟨hiff.1, hiff.2.1, (gap_iff s hi _ hiff.2.1).mp hiff.2.2.1, hiff.2.2.2⟩
+  rw [streamSubscribe_spec limit s hi req hoff pass, if_pos hc]
+  rfl
+
+/-- every delivered publication is a retained one (nothing is invented) -/
+theorem recovered_pubs_retained (limit : Nat) (s : RStream) (hi : s.Inv) (req : Req) (hoff : req.offset < U64)
+    (pass : Pub → Bool) (h : (streamSubscribe limit s req pass []).recovered = true) :
+    ∀ m ∈ (streamSubscribe limit s req pass []).pubs,
+      ∃ p ∈ s.items, pass p = true ∧ req.offset < p.offset ∧ m = toPlain p := by
+  have hiff := (recovered_true_iff limit s hi req hoff pass).mp h
+  rw [recovered_pubs_exact limit s hi req hoff pass h]
+  intro m hm
+  simp only [Outcome.pubs, expectedPubs, List.mem_map, List.mem_filter, decide_eq_true_eq] at hm
+  obtain ⟨p, ⟨⟨hpl, hgt⟩, hpass⟩, rfl⟩ := hm
+  have hle : p.offset ≤ s.top := by
+    have := (mem_offs hi.logOff p.offset).mp ⟨p, hpl, rfl⟩
+    omega
+  obtain ⟨q, hq, hqo⟩ := hiff.2.2.1 p.offset hgt hle
+  -- the retained entry with that offset is the log entry itself (items ⊆ log, offsets distinct)
+  have hqlog : q ∈ s.log := by
+    have := hi.suffix
+    rw [this] at hq
+    exact List.mem_of_mem_drop hq
+  have hpw := pairwise_of_offs hi.logOff
+  have : q = p := pw_inj hpw hqlog hpl hqo
+  subst this
+  exact ⟨q, hq, hpass, hgt, rfl⟩
+
+/-- **recovered_false_empty.**  Whenever `recovered = false` is reported (or the subscribe fails) no
+recovered publication is delivered — for any buffered publications. -/
+theorem recovered_false_empty (limit : Nat) (s : RStream) (req : Req) (pass : Pub → Bool)
+    (buffered : List MPub) (h : (streamSubscribe limit s req pass buffered).recovered = false) :
+    (streamSubscribe limit s req pass buffered).pubs = [] := by
+  rcases streamSubscribe_cases limit s req pass buffered with h1 | ⟨r, rp, h1⟩
+  · rw [h1]; rfl
+  · rw [h1] at h ⊢
+    exact finish_false_empty _ _ _ _ _ _ _ _ _ h
+
+/-- **unrecoverable_iff.**  The subscribe fails with `ErrorUnrecoverablePosition` exactly when the
+client demanded it (reject flag) and the position is not recoverable; otherwise a reply is sent. -/
+theorem unrecoverable_iff (limit : Nat) (s : RStream) (hi : s.Inv) (req : Req) (hoff : req.offset < U64)
+    (pass : Pub → Bool) :
+    streamSubscribe limit s req pass [] = .unrecoverable ↔
+      req.reject = true ∧
+        ¬ (epochOK s req.epoch ∧ req.offset ≤ s.top ∧ gapRetained s req.offset ∧ ¬ truncated limit s req.offset) := by
+  rw [← recovered_true_iff limit s hi req hoff pass, streamSubscribe_spec limit s hi req hoff pass]
+  by_cases hc : streamCond limit s req
+  · simp [hc, Outcome.recovered]
+  · cases hr : req.reject <;> simp [hc, Outcome.recovered]
+
+/-- without the reject flag the outcome is always a reply -/
+theorem refused_reply (limit : Nat) (s : RStream) (hi : s.Inv) (req : Req) (hoff : req.offset < U64)
+    (pass : Pub → Bool) (hr : req.reject = false)
+    (h : (streamSubscribe limit s req pass []).recovered = false) :
+    streamSubscribe limit s req pass [] = .reply false [] s.top s.epoch s.top true := by
+  rw [streamSubscribe_spec limit s hi req hoff pass] at h ⊢
+  by_cases hc : streamCond limit s req
+  · simp [hc, Outcome.recovered] at h
+  · simp [hc, hr]
+
+/-! ### Non-vacuity: concrete states satisfying `Inv`, exercising the branches -/
+
+/-- five publications, history size 3: offsets 3,4,5 retained, top 5, epoch 7 -/
+def exS : RStream :=
+  (((((RStream.new 7).add 1 1 3).add 2 2 3).add 1 3 3).add 1 4 3).add 2 5 3
+
+example : exS.Inv := by
+  unfold exS
+  have h0 := inv_new 7 (by decide)
+  have b : ∀ n : Nat, n ≤ 10 → n + 2 < U64 := by intro n hn; unfold U64; omega
+  have h1 := inv_add h0 (b _ (by decide)) 1 1 3
+  have h2 := inv_add h1 (b _ (by decide)) 2 2 3
+  have h3 := inv_add h2 (b _ (by decide)) 1 3 3
+  have h4 := inv_add h3 (b _ (by decide)) 1 4 3
+  exact inv_add h4 (b _ (by decide)) 2 5 3
+
+-- recovered from a retained position, with a filter (tag = 1): offset 5 (tag 2) is withheld
+example : streamSubscribe 0 exS ⟨2, 7, false⟩ (fun p => p.tag == 1) [] =
+    .reply true [⟨3, false, 3⟩, ⟨4, false, 4⟩] 2 7 5 true := by decide
+-- trimmed position (offset 2 is gone): refused, and with the reject flag an error
+example : streamSubscribe 0 exS ⟨1, 7, false⟩ (fun _ => true) [] = .reply false [] 5 7 5 true := by decide
+example : streamSubscribe 0 exS ⟨1, 7, true⟩ (fun _ => true) [] = .unrecoverable := by decide
+-- limit 2 truncates a gap of 3
+example : streamSubscribe 2 exS ⟨2, 7, false⟩ (fun _ => true) [] = .reply false [] 5 7 5 true := by decide
+example : truncated 2 exS 2 := by decide
+-- foreign epoch, empty epoch, offset = top, offset beyond top
+example : streamSubscribe 0 exS ⟨2, 9, false⟩ (fun _ => true) [] = .reply false [] 5 7 5 true := by decide
+example : (streamSubscribe 0 exS ⟨2, 0, false⟩ (fun _ => true) []).recovered = true := by decide
+example : streamSubscribe 0 exS ⟨5, 7, false⟩ (fun _ => true) [] = .reply true [] 5 7 5 true := by decide
+example : (streamSubscribe 0 exS ⟨6, 7, false⟩ (fun _ => true) []).recovered = false := by decide
+-- expired / removed stream keeps top: only the client at top is recovered
+example : (streamSubscribe 0 exS.clear ⟨5, 7, false⟩ (fun _ => true) []).recovered = true := by decide
+example : (streamSubscribe 0 exS.clear ⟨4, 7, false⟩ (fun _ => true) []).recovered = false := by decide
+
 end CentrifugeVerif.Recovery
